@@ -535,6 +535,11 @@ func (g *G) randSelectSpec(d int, top bool) *SelectSpec {
 			h := g.Bool_(d)
 			s.Having = &h
 		}
+	} else if hasFrom && g.R.Intn(14) == 0 && g.ok("having-without-group-by") {
+		// the whole result is one group
+		g.use("having-without-group-by")
+		h := g.Bool_(d)
+		s.Having = &h
 	}
 	if top && hasFrom {
 		if g.R.Intn(4) == 0 {
